@@ -7,9 +7,16 @@ A monitor takes a case (see vcheck.parse_trace) and returns None or (step, messa
 
 
 def is_panic(out, snap):
-    """the harness writes a panicking call as result -1000 with an EMPTY snapshot (the history ends there); a
-    result that happens to be the number -1000 (SampledLFU::room_left can return it) has a snapshot"""
-    return out == [-1000] and not snap
+    """the harness writes a panicking call as result -1000 with an empty snapshot, or (a panic inside the library in a
+    run without injection) with the snapshot `-1001 (code chain_len index_len)*`: the weak audit of every internal
+    list after the panic; the history ends there.  A result that happens to be the number -1000
+    (SampledLFU::room_left can return it) has an ordinary snapshot"""
+    return out == [-1000] and (not snap or snap[0] == -1001)
+
+
+def post_panic_audit(snap):
+    """codes of the weak audit taken after a panic inside the library ([] when there is none)"""
+    return list(snap[1::3]) if snap and snap[0] == -1001 else []
 
 
 def lru_snap(snap):
@@ -1182,6 +1189,10 @@ def mon_c03(case):
         return None
     prev = None
     for step, (op, out, cb, acct, snap) in enumerate(case["lines"], 1):
+        if op and is_panic(out, snap) and any(post_panic_audit(snap)):
+            bad = [c for c in post_panic_audit(snap) if c][0]
+            return step, (f"call {op[:4]} panicked inside the library and left a list that safe calls can no longer be made on: "
+                          f"{WEAK_CODES.get(bad, bad)} (weak audit per list: {post_panic_audit(snap)})")
         if not op or op[0] == 98 or is_panic(out, snap):
             prev = None if is_panic(out, snap) else prev
             continue
@@ -1373,6 +1384,10 @@ def mon_c03_slru(case):
     groups = HLAYOUT[kind][2]
     prev = None
     for step, (op, out, cb, acct, snap) in enumerate(case["lines"], 1):
+        if op and is_panic(out, snap) and any(post_panic_audit(snap)):
+            bad = [c for c in post_panic_audit(snap) if c][0]
+            return step, (f"call {op[:4]} panicked inside the library and left a list that safe calls can no longer be made on: "
+                          f"{WEAK_CODES.get(bad, bad)} (weak audit per list: {post_panic_audit(snap)})")
         if not op or op[0] == 98 or is_panic(out, snap):
             prev = None if is_panic(out, snap) else prev
             continue
